@@ -11,7 +11,7 @@ LEVEL_NOTE = ("Theorems on the model of AssemblyManager over typed elements (all
               "implementation's own overhangs; end to end from raw sequences through the model's typing) over an "
               "exhaustive small scope, plus an independent graph oracle on the implementation.")
 
-IMPORTS = """From MV Require Import Base Regex Typing Assembly Pipeline Glue.
+IMPORTS = """From MV Require Import Base Regex Typing Assembly Pipeline Glue SrcGlue.
 From Coq Require Import String.
 Definition mk_mod (x : nat * string * string * string) : @tmod (list code) :=
   let '(i, u, d, f) := x in TM i (okey (dna u)) (okey (dna d)) (dna f).
@@ -20,7 +20,8 @@ Definition check_l3 (c : (string * string * string) * list (nat * string * strin
   asm_obs_ok (dna_assemble (TV (okey (dna u)) (okey (dna d)) (dna f)) (map mk_mod ms)) obs.
 Definition check_raw (c : (cls * string) * list (cls * string) * asm_obs) : bool :=
   let '((vc, v), ms, obs) := c in
-  asm_obs_ok (assemble_raw vc (dna v) (map (fun x => (fst x, dna (snd x))) ms)) obs.
+  let raw := map (fun x => (fst x, dna (snd x))) ms in
+  asm_obs_ok (assemble_raw vc (dna v) raw) obs && asm_obs_ok (src_assemble vc (dna v) raw) obs.
 """
 
 # overhang alphabets: a reverse-complementary pair, a palindrome, unrelated words
